@@ -556,13 +556,28 @@ def arm_guard(chk, prog, ref):
                 var, op = s.test.left.id, type(s.test.ops[0])
                 t_sign = {ast.GtE: "Z+", ast.Gt: "P", ast.Lt: "N", ast.LtE: "Z-"}.get(op)
                 f_sign = {ast.GtE: "N", ast.Gt: "Z-", ast.Lt: "Z+", ast.LtE: "P"}.get(op)
-                tgt_t = {t.id for x in s.body if isinstance(x, ast.Assign) for t in x.targets if isinstance(t, ast.Name)}
-                tgt_f = {t.id for x in s.orelse if isinstance(x, ast.Assign) for t in x.targets if isinstance(t, ast.Name)}
+                def targets(body):
+                    out = set()
+                    for x in body:
+                        if isinstance(x, ast.Assign):
+                            for t in x.targets:
+                                if isinstance(t, ast.Name):
+                                    out.add(t.id)
+                                elif isinstance(t, ast.Subscript) and isinstance(t.value, ast.Name):
+                                    out.add(t.value.id)
+                    return out
+                tgt_t, tgt_f = targets(s.body), targets(s.orelse)
                 if t_sign and tgt_t and tgt_t == tgt_f:          # alternative formulas for the same value
                     for arm, body, sg in (("true", s.body, t_sign), ("false", s.orelse, f_sign)):
                         e2 = dict(env)
                         e2[var] = sg
-                        for d in divisors(body):
+                        seq = []
+                        for st_ in body:                              # statement by statement: locals of the arm (hoisted roots, denominators) carry their sign
+                            for d in divisors([st_]):
+                                seq.append((d, dict(e2)))
+                            if isinstance(st_, ast.Assign) and len(st_.targets) == 1 and isinstance(st_.targets[0], ast.Name):
+                                e2[st_.targets[0].id] = sign_of(st_.value, e2)
+                        for d, e2 in seq:
                             n += 1
                             sd = sign_of(d, e2)
                             site = "%s::if %s [%s arm] / %s" % (ref, ast.unparse(s.test), arm, ast.unparse(d))
